@@ -260,3 +260,77 @@ def run(prog, rep):
         oki = bool(cmpn) and shape and bool(cp)
     rule.check(oki, 'Section::inheritedProperties|shadowing', rep.where(ip), ip.label(), 'a linked property is appended iff no own property has the same name')
     return rule
+
+
+def run_filters(prog, rep):
+    """filter predicates (include/nix/util/filter.hpp): each accepts exactly the entities its name says"""
+    from ..absint import GenericInterp
+    rule = rep.rule('R-FILTER', 'filter predicates: accept iff the named attribute of the entity equals / matches the filter value', floor=7)
+    E = ('e',)
+
+    def spec_eq(getter, field):
+        key = ('cmp', '==', ('call', getter, E), ('mem', field, 'THIS'))
+        key2 = ('cmp', '==', ('mem', field, 'THIS'), ('call', getter, E))
+        return lambda assign: assign.get(key, assign.get(key2))
+
+    def spec_ids(assign):
+        for k, v in assign.items():
+            if k[0] == 'cmp' and ('call', 'count', ('mem', 'ids', 'THIS'), ('call', 'id', E)) in k and 0 in k:
+                return v if k[1] == '<' else (not v if k[1] == '==' else None)
+        return None
+
+    def spec_meta(assign):
+        has = assign.get(('truthy', ('call', 'metadata', E)))
+        if has is None:
+            return None
+        if not has:
+            return False
+        return assign.get(('cmp', '==', ('call', 'id', ('call', 'metadata', E)), ('mem', 'sec_id', 'THIS')),
+                          assign.get(('cmp', '==', ('mem', 'sec_id', 'THIS'), ('call', 'id', ('call', 'metadata', E)))))
+
+    def spec_src(assign):
+        return assign.get(('bool', 'hasSource', E, ('mem', 'src_id', 'THIS')))
+
+    def spec_type(assign):
+        exact = assign.get(('truthy', ('mem', 'exact', 'THIS')))
+        if exact is None:
+            return None
+        want = 'boost::regex_match' if exact else 'boost::regex_search'
+        for k, v in assign.items():
+            if k[0] == 'bool' and k[1] == want and k[2] == ('call', 'type', E) and ('mem', 'expression', 'THIS') in k:
+                return v
+        return None
+    SPEC = {'nix::util::AcceptAll': lambda a: True, 'nix::util::IdFilter': spec_eq('id', 'id'), 'nix::util::NameFilter': spec_eq('name', 'name'),
+            'nix::util::IdsFilter': spec_ids, 'nix::util::MetadataFilter': spec_meta, 'nix::util::SourceFilter': spec_src, 'nix::util::TypeFilter': spec_type}
+    done = {}
+    for f in sorted(prog.funcs.values(), key=lambda f: (f.q, f.sig)):
+        if f.name != 'operator()' or f.body is None or not (f.cls or '').startswith('nix::util::'):
+            continue
+        base = f.cls.split('<')[0]
+        if base not in SPEC:
+            continue
+        it = GenericInterp(prog)
+        res = it.enumerate(f, this='THIS', args=[E])
+        probs = []
+        outs = set()
+        for assign, out, log, fields in res:
+            if out[0] != 'ret' or not isinstance(out[1], bool):
+                probs.append('outcome %r' % (out,))
+                continue
+            want = SPEC[base](assign)
+            outs.add(out[1])
+            if want is None:
+                probs.append('accepts=%s is decided by %s, not by the named attribute' % (out[1], [repr(k)[:60] for k in assign][:2] or 'nothing'))
+            elif want != out[1]:
+                probs.append('returns %s where the attribute test says %s' % (out[1], want))
+        if base != 'nix::util::AcceptAll' and outs != {True, False}:
+            probs.append('the predicate is constant')
+        key = '%s|%s' % (base.split('::')[-1], (f.targs or ['?'])[0] if hasattr(f, 'targs') else '?')
+        if base in done and not probs:
+            continue
+        done[base] = True
+        rule.check(not probs, '%s|predicate' % base.split('::')[-1] if not probs else key, rep.where(f), f.label(), 'accepts exactly the entities whose attribute matches (%d paths)' % len(res), '; '.join(sorted(set(probs))[:2]))
+    missing = [b for b in SPEC if b not in done]
+    if missing:
+        raise AnalysisBroken('R-FILTER: no instantiation of %s' % missing)
+    return rule
